@@ -1358,10 +1358,8 @@ Lemma gid_for_sid_in_ranges_nofuel : forall m ranges sid gid,
 Proof.
   intros m ranges sid. induction ranges as [|[first n_left] r IH]; intros gid;
     cbn [gid_for_sid_in_ranges]; [discriminate|].
-  destruct (charset_range_hit first n_left sid).
-  - apply nofuel_bind; [apply add_u16_nofuel|intros g; discriminate].
-  - apply nofuel_bind; [apply add_u16_nofuel|intros n].
-    apply nofuel_bind; [apply add_u16_nofuel|intros g]. apply IH.
+  destruct (charset_range_hit first n_left sid); [discriminate|].
+  destruct (gid + charset_range_skip n_left <? U32); [apply IH|discriminate].
 Qed.
 
 Lemma charset_sid_to_gid_nofuel : forall m cs sid, charset_sid_to_gid m cs sid <> CFuel.
